@@ -5,3 +5,4 @@ from . import scaffold  # noqa: F401
 from . import overlap_result  # noqa: F401
 from . import indexed_assembly  # noqa: F401
 from . import format  # noqa: F401
+from . import fasta  # noqa: F401
